@@ -112,7 +112,7 @@ CANARIES = {
             "module": "mici.systems",
             "old": "        return self.metric(state).sqrt @ rng.normal(size=state.pos.shape)",
             "new": "        return self.metric(state).inv.sqrt @ rng.normal(size=state.pos.shape)",
-            "cases": ["momentum/diagonal/2"], "what": "Riemannian momenta drawn with the inverse metric as covariance",
+            "cases": ["momentum/diagonal/1"], "what": "Riemannian momenta drawn with the inverse metric as covariance",
         },
     },
     "C01": {
